@@ -1254,7 +1254,6 @@ func (w *World) nilIsTyped(fn *ssa.Function, i int) bool {
 	return false
 }
 
-
 // keepsParam: fn stores its parameter idx (as it is, or wrapped in an interface) into a field, an element, a map or a
 // package variable - the value outlives the call.
 func (w *World) keepsParam(fn *ssa.Function, idx int) bool {
@@ -1297,7 +1296,6 @@ func (w *World) keepsParam(fn *ssa.Function, idx int) bool {
 	walk(fn.Params[idx], 0)
 	return kept
 }
-
 
 // phiEdgeOpen: value v (a result of call, whose error result has index ei, or -1) enters the join ph on some edges;
 // false when every such edge is taken only where the failure of the call was excluded (the call succeeded, or v was
